@@ -16,5 +16,5 @@ CONSTANTS
 INIT Init
 NEXT Next
 VIEW View0
-INVARIANTS TypeOK MemoOK WarmIsBip9 ColdIsBip9 CacheSound SamePeriod Absorbing Diagram DefinedUntilStart StartedStep LockedInStep AlwaysNever StatsAgree
+INVARIANTS TypeOK MemoOK ShiftInvariant WarmIsBip9 ColdIsBip9 CacheSound SamePeriod Absorbing Diagram DefinedUntilStart StartedStep LockedInStep AlwaysNever StatsAgree
 CHECK_DEADLOCK FALSE
